@@ -26,7 +26,7 @@ ASSUMPTIONS = ["numpy scalars / arrays as LEFT operand of a CellVariable are out
                "arrays are not valid FaceVariable operands (three differently shaped components)",
                "comparison / logical operators appear only at the root of a tree: their results are boolean-valued (for FaceVariables always, for "
                "CellVariables when the ghost layer is built by concatenation, i.e. 1-D periodic) and numpy itself refuses '-' on booleans",
-               "K6: faceeval with a function that hands its argument back (identity, np.asarray) is exercised only in the known-finding replay"]
+               ]
 BIN = {'+': operator.add, '-': operator.sub, '*': operator.mul, '/': operator.truediv, '**': operator.pow,
        '>': operator.gt, '>=': operator.ge, '<': operator.lt, '<=': operator.le, '&': operator.and_, '|': operator.or_}
 REFLECTABLE = ['+', '-', '*', '/', '**']
@@ -84,7 +84,7 @@ def _case(draw):
     elif kind in ('funceval', 'faceeval'):
         na = draw(st.integers(1, 3))
         pool = {1: FUNCS1, 2: FUNCS2, 3: FUNCS3}[na]
-        names = [k for k in pool if not (kind == 'faceeval' and k in ('identity', 'asarray', 'first'))]
+        names = list(pool)
         case['func'] = draw(st.sampled_from(sorted(names)))
         case['args'] = [draw(st.integers(0, nvars - 1)) for _ in range(na)]
         case['alias'] = draw(st.sampled_from(['funceval', 'celleval'])) if kind == 'funceval' else 'faceeval'
@@ -382,13 +382,13 @@ def check(case):
         for v in fvars:
             for oc in (v._xvalue, v._yvalue, v._zvalue):
                 if np.asarray(gc).size and np.asarray(oc).size and np.shares_memory(gc, oc):
-                    known = 'K6' if (kind == 'faceeval' and case['func'] in ('identity', 'asarray', 'first')) else None
+                    known = None
                     res.fail(f"aliasing:{kind}", f"{what}: result shares memory with an operand", known=known)
     osnap = [snap_face(v) for v in fvars]
     for gc in (got._xvalue, got._yvalue, got._zvalue):
         if np.asarray(gc).size and np.asarray(gc).dtype != bool:
             gc[...] = 9.0
     if [snap_face(v) for v in fvars] != osnap:
-        known = 'K6' if (kind == 'faceeval' and case['func'] in ('identity', 'asarray', 'first')) else None
+        known = None
         res.fail(f"result-edit-leaks:{kind}", f"{what}: editing the result changed an operand", known=known)
     return res
